@@ -1,5 +1,4 @@
 import Verif.Lemmas.SseReq
-import Verif.Gen.SseTiming
 
 /-! # C12 — SSE transport: live-or-raise setup, exactly-once delivery, chunk-independent
 
@@ -13,11 +12,6 @@ the real tasks, streams and HTTP clients are released is decided by the correspo
 namespace Verif.Props.C12
 open Verif.Model.SseReq
 variable {α : Type}
-
-/-- the literals the harness takes from the source (connection cap, default timeout, synthesised
-error codes) were found in the shapes the translator understands -/
-theorem c12_translated : Verif.Gen.SseTiming.translatable = true
-    ∧ 0 < Verif.Gen.SseTiming.connectCapMs ∧ 0 < Verif.Gen.SseTiming.defaultTimeoutMs := by decide
 
 /-! ## establishment -/
 
